@@ -47,6 +47,26 @@ CHECKS = {
    technique="coverage-guided fuzzing (libFuzzer) with structure-aware decode layers; oracle = no sanitizer report, documented termination",
    text="One libFuzzer target per untrusted-input surface (smtpd, qmtpd, qmqpd, token822, inject, dns, remote, spawn, control/constmap, cdb, local, received, pop3d, popup, stralloc/substdio/getln, send), library objects built with sanitizers too, regression corpus first, every crash artefact re-run 3x before it counts.",
    note="distinct_nontrivial = corpus units that reached the parsers (measured proxy). Small over-reads inside stralloc slack are invisible to ASan unless the harness hands exact-size copies (done for cdb keys, child output, dns answers). Found F7 (dns.c over-read), fixed by 2d89f0c."),
+ "C07": dict(cat="fault_enumeration", design="5/C07", engine="real qmail-smtpd/qmail-qmtpd/qmail-qmqpd under vshim with a scripted queue stand-in or the real qmail-queue",
+   technique="property-based testing (Hypothesis decision tapes) + systematic grids (every exit status 0..255, every cut offset of base sessions, size/hop/length boundaries) against byte-level reference session models",
+   text="Sessions are generated by construction and mutated (databytes +-1, 98..101 hops, address lengths around the limits, NUL bytes, every framing mutation, client disconnect at every offset, every queue exit status, status 82 with custom text, killed / missing / lenient queue program, failing pipe()/fork() of the daemon, hostile TCPREMOTE*/HELO strings). Oracle: positive acknowledgement iff committed; committed bytes = Received field + decoded body; envelope = acknowledged sender/recipients in order; Received field well-formed with unsafe bytes as '?'; class of the negative reply. 15 hand-written bad observations are refused by the oracle on every run.",
+   note="Only the class digit of SMTP replies is compared. Slack where the documents are silent (lengths 899..900 / 999..1003, HELO name, 82 with short text, lost QMTP acknowledgements after a later malformed message). Found and fixed: qmtpd recipient length digit test (3cc662c)."),
+ "C08": dict(cat="exploration", design="5/C08", engine="real qmail-smtpd under vshim, morercpthosts.cdb compiled by the real qmail-newmrh",
+   technique="model-based property testing (Hypothesis command sequences and configurations) against a transaction/relay-policy model written from qmail-smtpd.8",
+   text="Generated rcpthosts/morercpthosts/badmailfrom/localiphost/RELAYCLIENT configurations over a 6-label pool with near misses and command sequences of up to 14 commands (mixed case, LF/CRLF, pipelining, address forms with the intended address known by construction); the reply class of every command and the committed envelope of every accepted DATA must equal the model; nothing is committed otherwise. 162-case deterministic grid and regression files first.",
+   note="Arguments outside the grammar are only checked for 'no commit without 250-DATA'. Found and fixed: ip_scan octet range (d717745)."),
+ "C09": dict(cat="exploration", design="5/C09", engine="in-process qmail-remote.c smtp() with a lock-step scripted server, in-process qmail-rspawn.c report(), real qmail-remote over loopback TCP, real qmail-rspawn with stand-in",
+   technique="bounded-exhaustive enumeration of server-behaviour class structures (1-3 recipients) with seeded random instantiation + Hypothesis end-to-end sessions; oracle written twice (C and Python) from qmail-remote.8",
+   text="Every structure {reply class x single/multi-line | EOF | read error | failing write} per protocol phase for 1-3 recipients is enumerated and instantiated with random codes, texts, chunkings and bodies; report() gets every exit status, every signal and all letter structures up to 4 records. Oracle: per-recipient r/s/h in argument order, K only after an accepted recipient and an accepted final dot, D/Z classes, 'Possible duplicate!' exactly for a loss between final dot and its reply, report() never upgrades to K.",
+   note="3xx where a final answer is due, 1xx/6xx-9xx, and the Z-or-D choice for non-zero exit / empty output are slack. No libFuzzer twin."),
+ "C18": dict(cat="exploration", design="5/C18", engine="real qmail-clean / qmail-lspawn / qmail-rspawn under vshim with decoy files and stand-in children; driven world for qmail-send's report channels",
+   technique="bounded-exhaustive enumeration of request strings + Hypothesis streams; oracle over the syscall trace and the filesystem; model-based histories with hostile reports",
+   text="(1) qmail-clean: all prefix x body requests up to length 5 over {0,1,9,/,.,a,0xFF} plus boundaries (lengths, 2^31/2^32/2^64+-1, leading zeros, unterminated tail) against a queue full of decoys: valid iff ^(foop|todo)/[0-9]+\\0$, exactly one status byte, only the documented unlinks in order, nothing for rejected requests. (2) spawners: command streams with hostile message ids (non-numeric, path-like, directory, FIFO, symlink, foreign owner), all delivery numbers, truncated tails: opens only of digit paths, children only for regular qmailq-owned files, exactly one report per complete command. (3) qmail-send: hostile bytes on the report descriptors (unused/out-of-range delivery numbers, forged K/D, 12 kB, split reports) must not change any recipient's state (ledger of C03).",
+   note="Requests are sent in batches and judged one by one from the trace. Reverts of fixes 7fbe6e3 / 6665200 are detected by the regression corpus."),
+ "C19": dict(cat="exploration", design="5/C19", engine="real qmail-pop3d and qmail-popup under vshim (sandbox.Session)",
+   technique="model-based property testing (Hypothesis maildir populations and command sequences) against a reference POP3 model over the same files",
+   text="Generated maildirs (new/cur, info suffixes, mtime ties, too-new files, dot lines, no final newline, long lines, files vanishing mid-session) and up to 20 commands with hostile numeric arguments (0, n+1, 2^31, 2^32+1, 10^20, 2^64+1, junk); every reply and the maildir after every command are compared with the model; exactly the marked files are removed and only at QUIT; uid 0 refused; qmail-popup honours only USER/PASS/APOP/NOOP/QUIT before login and passes credentials verbatim on descriptor 3.",
+   note="STAT's count is outside the comparison (property text). Slack: TOP without k, LAST semantics, vanished files. Revert of fix 6665200 detected by the regression corpus."),
 }
 NOT_YET = {}
 def main():
